@@ -363,6 +363,9 @@ Lemma Forall2_map_l {A B} (R : B -> A -> Prop) (f : A -> B) l :
   Forall (fun x => R (f x) x) l -> Forall2 R (map f l) l.
 Proof. induction 1; cbn; constructor; assumption. Qed.
 
+Lemma Forall2_length' {A B} (R : A -> B -> Prop) l1 l2 : Forall2 R l1 l2 -> length l1 = length l2.
+Proof. induction 1; cbn; congruence. Qed.
+
 Lemma Forall2_repeat {A B} (R : A -> B -> Prop) x y n : R x y -> Forall2 R (repeat x n) (repeat y n).
 Proof. intros H. induction n; cbn; constructor; assumption. Qed.
 
@@ -441,6 +444,12 @@ Proof.
   assert (Hsel : Forall line_ok sel) by (apply Forall_firstn_skipn, Hlines).
   assert (Hsel_len : length sel = Z.to_nat rows).
   { subst sel. rewrite firstn_length, skipn_length. lia. }
+  assert (Hpad : shows_crop (Z.to_nat tl) (Z.to_nat cols) (spaces cols ++ [TNul; TNul]) (pad_line W)).
+  { split.
+    - rewrite row_vis_app, row_vis_spaces. cbn [fst snd row_vis]. rewrite app_nil_r.
+      unfold vis_row. rewrite vis_pad_line. cbn [fst]. unfold blanks.
+      rewrite skipn_repeat, firstn_repeat. do 2 f_equal. clear - H1 H3 H5. lia.
+    - rewrite text_only_app, text_only_spaces. reflexivity. }
   (* the core: row by row, the output shows the crop of the selected line *)
   assert (Core : Forall2 (shows_crop (Z.to_nat tl) (Z.to_nat cols)) out sel).
   { subst out. unfold content_text. unfold py_or.
@@ -508,12 +517,6 @@ Proof.
                         |subst TI1 TI2; rewrite HIL; clear - Hc Hfit; lia
                         |subst NQ; rewrite HIL; reflexivity]. }
       rewrite Hsel3.
-      assert (Hpad : shows_crop (Z.to_nat tl) (Z.to_nat cols) (spaces cols ++ [TNul; TNul]) (pad_line W)).
-      { split.
-        - rewrite row_vis_app, row_vis_spaces. cbn [fst snd row_vis]. rewrite app_nil_r.
-          unfold vis_row. rewrite vis_pad_line. cbn [fst]. unfold blanks.
-          rewrite skipn_repeat, firstn_repeat. do 2 f_equal. lia.
-        - rewrite text_only_app, text_only_spaces. reflexivity. }
       apply Forall2_app; [apply Forall2_repeat, Hpad|].
       apply Forall2_app; [|apply Forall2_repeat, Hpad].
       apply Forall2_map_l. apply Forall_firstn_skipn.
@@ -529,8 +532,8 @@ Proof.
     inversion Hsel as [|? ? HL HLs]; subst. constructor; [|apply IH, HLs].
     destruct HL as (HL1 & _). eapply shows_crop_facts; [exact HL1|lia|exact HoL]. }
   split; [|split].
-  - rewrite (Forall2_length Hall), Hsel_len. lia.
-  - unfold crop. rewrite <- skipn_map, <- firstn_map. fold sel.
+  - rewrite (Forall2_length' _ _ _ Hall), Hsel_len. lia.
+  - unfold crop. rewrite skipn_map, firstn_map. fold sel.
     clear - Hall. induction Hall as [|o L os Ls (Ho & _) _ IH]; [reflexivity|].
     cbn [map]. rewrite Ho, IH. reflexivity.
   - clear - Hall H3. induction Hall as [|o L os Ls (_ & Ho1 & Ho2 & Ho3) _ IH]; constructor; [|exact IH].
